@@ -32,6 +32,25 @@ def code_kind(c):
     return str(c)
 
 
+def _has_star(t):
+    if not isinstance(t, (list, tuple)) or not t:
+        return False
+    if t[0] == "W":
+        return t[2] is None or _has_star(t[2])
+    if t[0] == "A":
+        return any(_has_star(a) for a in t[2])
+    if t[0] == "V":
+        return t[3] is not None and _has_star(t[3])
+    return False
+
+
+@C.matcher("c09_star_query")
+def _m_star(detail, kf):
+    """find_irrelevant_type on a type with a star projection returns another instantiation of the same class"""
+    c = detail.get("case")
+    return bool(c) and c[0] == "irr" and _has_star(c[1]) and c[2] is not None and c[2][0] == "A" and c[1][0] == "A" and c[2][1] == c[1][1]
+
+
 def pool_objects(L, b, tab):
     objs = []
     for cid in sorted(tab):
@@ -63,8 +82,20 @@ def run(tier, seed, replay=None):
         b = T.Builder(L, tab)
         pool = pool_objects(L, b, tab)
         cases = []
-        for _ in range(12):
-            t = T.gen_type(rng, L, tab, rng.choice([0, 1, 2]), [])
+        directed = []
+        for cid_, (ps_, _) in tab.items():
+            # class Foo<X, Y : X>: queries Foo<A, in A>, Foo<A, A>, Foo<A, out A> with A a type that has subtypes
+            for k_, p_ in enumerate(ps_):
+                if p_[3] is not None and p_[3][0] == "V" and any(q[1] == p_[3][1] for q in ps_[:k_]):
+                    base = [("C", c2) for c2 in tab if not tab[c2][0] and any(("C", c2) in tab[c3][1] for c3 in tab)] + \
+                        [t_ for t_ in L.builtin_terms(prims=False) if L.info[t_[1]]["name"] == "NumberType"]
+                    if base:
+                        a_ = rng.choice(base)
+                        for wrap in (("W", 2, a_), a_, ("W", 1, a_)):
+                            args_ = [a_ if q[1] == p_[3][1] else (wrap if q is p_ else a_) for q in ps_]
+                            directed.append(("A", cid_, args_))
+        for qi in range(12 + len(directed)):
+            t = directed[qi - 12] if qi >= 12 else T.gen_type(rng, L, tab, rng.choice([0, 1, 2]), [])
             if t[0] in ("N", "K") or T.nested_nothing(t):
                 continue
             if t[0] == "B" and L.info[t[1]]["bottom"]:
